@@ -41,3 +41,33 @@ func verifRoundTripDuration(v Duration) (Duration, error) {
 	var err = o.UnmarshalJSON(b)
 	return *o, err
 }
+
+func verifRoundTripJsNanoTime(v JsNanoTime) (JsNanoTime, error) {
+	var b, _ = v.MarshalJSON()
+	var o = new(JsNanoTime)
+	var err = o.UnmarshalJSON(b)
+	return *o, err
+}
+
+// every integer string form parses back to the integer it was formatted from
+func verifRoundTripHex(i int64, u uint64) (int64, uint64, int64, uint64, bool) {
+	var a, e1 = HexI64(I64Hex(i))
+	var b, e2 = HexU64(U64Hex(u))
+	var c, e3 = HexI64V2(I64HexV2(i))
+	var d, e4 = HexU64V2(U64HexV2(u))
+	return a, b, c, d, e1 == nil && e2 == nil && e3 == nil && e4 == nil
+}
+
+func verifRoundTripUnixNano2Time(v UnixNano2Time) (UnixNano2Time, error) {
+	var x, _ = v.Value()
+	var o = new(UnixNano2Time)
+	var err = o.Scan(x)
+	return *o, err
+}
+
+func verifRoundTripUnix2Time(v Unix2Time) (Unix2Time, error) {
+	var x, _ = v.Value()
+	var o = new(Unix2Time)
+	var err = o.Scan(x)
+	return *o, err
+}
